@@ -440,6 +440,18 @@ def entries_check(lib_raw=None):
             if a_ in ('packrat_parser', 'recursive_parser'):
                 failures.append(fail(name, 'C07.entry-is-not-memoised.%s' % name, 'public entry %s carries #[%s]: its wrapper runs before init()' % (name, a_), ['C07', 'C17', 'C15', 'C20'],
                                      Dummy('sv-parser-parser/src/lib.rs', pre.count('\n') + 1)))
+        # .. and hands the text to ITS production (the strict and the incomplete entry of the same grammar differ in nothing else)
+        want_ = {'sv_parser': 'source_text', 'sv_parser_incomplete': 'source_text_incomplete', 'lib_parser': 'library_text',
+                 'lib_parser_incomplete': 'library_text_incomplete', 'pp_parser': 'preprocessor_text'}.get(name)
+        if want_:
+            checked += 1
+            calls_ = re.findall(r'\b(\w+)\s*\(\s*s\s*\)', body)
+            calls_ = [c for c in calls_ if c != 'init']
+            if calls_ and want_ not in calls_:
+                failures.append(fail(name, 'C15.entry-runs-its-own-production.%s' % name, 'public entry %s runs %s instead of %s' % (name, ', '.join(calls_), want_), ['C15', 'C20', 'C01'],
+                                     Dummy('sv-parser-parser/src/lib.rs', lib_raw[:lib_raw.index('pub fn ' + name)].count('\n') + 1)))
+            elif not calls_:
+                undecided.append('%s: the production the entry runs could not be read off its body' % name)
         if not re.match(r'init\([^;]*\);', re.sub(r'\s+', '', body)):
             failures.append(fail(name, 'C07.entry-calls-init-first.%s' % name, 'public entry %s does not call init() first' % name, ['C07', 'C17', 'C15', 'C20'], Dummy('sv-parser-parser/src/lib.rs', lib_raw[:lib_raw.index('pub fn ' + name)].count('\n') + 1)))
     # Error::Parse is the report of the STRICT parsers and of nothing else: it is constructed in parse_sv_pp / parse_lib_pp (unit
@@ -1403,6 +1415,7 @@ ASSUMED_LEXERS = {
     'C05': _PP_COMMON + _PP_MACRO + _PP_USAGE,
     'C06': _PP_COMMON + _PP_KEPT,
     'C10': _PP_COMMON + _PP_INC + _PP_USAGE[:1],
+    'C15': ['ws', 'symbol', 'keyword', 'white_space'],      # 'an unparsable tail leaves the tree unchanged' needs the look-ahead of every token to be independent of what follows the token's own boundary
     'C17': ['ws', 'no_ws', 'symbol', 'symbol_exact', 'keyword', 'white_space'],      # the token combinators decide how often the white space (and a directive inside it) after a token is lexed: with the version stack outside the memo key (K7) that is observable
     'C09': _PP_COMMON + _PP_INC + _PP_USAGE + _PP_MACRO,        # 'chains of legal depth yield the fully expanded text'
     'C11': _PP_COMMON + _PP_MACRO + ['undefine_compiler_directive', 'undefineall_compiler_directive'],
